@@ -562,6 +562,46 @@ type Rig struct {
 	ServerAddr string
 	ups        upstream.Upstream
 	cc         cert.ClientConfig
+	Gates      map[string]*gateChannel
+}
+
+// gateChannel is a real NetworkChannel whose OpenConnection waits until Open() is called (a target that is slow to
+// connect to); Entered() tells how many dials are waiting or have waited.
+type gateChannel struct {
+	*server.NetworkChannel
+	mu      sync.Mutex
+	gate    chan struct{}
+	entered chan struct{}
+}
+
+func (g *gateChannel) OpenConnection() (net.Conn, error) {
+	g.mu.Lock()
+	gate := g.gate
+	g.mu.Unlock()
+	select {
+	case g.entered <- struct{}{}:
+	default:
+	}
+	<-gate
+	return g.NetworkChannel.OpenConnection()
+}
+
+// Open lets the dials waiting now through; later dials wait for the next Open.
+func (g *gateChannel) Open() {
+	g.mu.Lock()
+	close(g.gate)
+	g.gate = make(chan struct{})
+	g.mu.Unlock()
+}
+
+// WaitEntered waits until a dial has reached the gate.
+func (g *gateChannel) WaitEntered(d time.Duration) bool {
+	select {
+	case <-g.entered:
+		return true
+	case <-time.After(d):
+		return false
+	}
 }
 
 // SecondClient starts another client process image (its own upstream object, session and listeners) against the same
@@ -633,7 +673,8 @@ func NewRig(o RigOpts) (*Rig, error) {
 				ProtoName: addr.ProtoName{Name: n}, Address: addr.MustParseAddress("socks://localhost")}})
 			continue
 		}
-		t, err := NewTarget(o.Channels[n])
+		gated := strings.HasPrefix(o.Channels[n], "gate:")
+		t, err := NewTarget(strings.TrimPrefix(o.Channels[n], "gate:"))
 		if err != nil {
 			return nil, err
 		}
@@ -642,8 +683,19 @@ func NewRig(o RigOpts) (*Rig, error) {
 		if t.Network == "unix" {
 			chAddr = addr.ProtoAddress{URL: url.URL{Scheme: "unix", Host: t.Addr}}
 		}
-		channels = append(channels, &server.NetworkChannel{AbstractChannel: server.AbstractChannel{
-			ProtoName: addr.ProtoName{Name: n}, Address: chAddr}})
+		nc := &server.NetworkChannel{AbstractChannel: server.AbstractChannel{
+			ProtoName: addr.ProtoName{Name: n}, Address: chAddr}}
+		if gated {
+			// a target that is slow to connect to: the real NetworkChannel dials only when the gate is opened
+			g := &gateChannel{NetworkChannel: nc, gate: make(chan struct{}), entered: make(chan struct{}, 1024)}
+			if r.Gates == nil {
+				r.Gates = map[string]*gateChannel{}
+			}
+			r.Gates[n] = g
+			channels = append(channels, g)
+			continue
+		}
+		channels = append(channels, nc)
 	}
 	withCert := cert.ServerConfig{Config: cert.Config{Certificate: cs.certPEM, PrivateKey: cs.keyPEM}}
 	var srv server.Server
